@@ -8,21 +8,22 @@ import (
 
 // GenOpts steers the grammar generator (DESIGN.md 3.1).
 type GenOpts struct {
-	MaxNT     int
-	MaxDepth  int
-	Alphabet  string
-	NonMono   bool // Choice / Many / SepBy / SeqTry / SeqFirstOrAll
-	ExtraMemo int  // 0: never; n: one node in n gets an extra Memoize wrapper
-	Names     bool
-	MaxInput  int
-	NoRefs    bool
-	Trims     bool
-	Skeleton  bool // recursion skeleton first (direct / hidden / indirect ring)
-	LRFree    bool // repair left recursion away (C03)
-	Share     bool // bias towards several references to one rule at one position (cache hits)
-	SkWeights []int // when set, the skeleton kind is sampled from this list
-	Suppress  bool  // combinator.SuppressError wrappers
-	NearMiss  bool  // prefer sentences of the grammar with one byte changed / inserted / deleted / appended
+	MaxNT      int
+	MaxDepth   int
+	Alphabet   string
+	NonMono    bool // Choice / Many / SepBy / SeqTry / SeqFirstOrAll
+	ExtraMemo  int  // 0: never; n: one node in n gets an extra Memoize wrapper
+	Names      bool
+	MaxInput   int
+	NoRefs     bool
+	Trims      bool
+	Skeleton   bool  // recursion skeleton first (direct / hidden / indirect ring)
+	LRFree     bool  // repair left recursion away (C03)
+	Share      bool  // bias towards several references to one rule at one position (cache hits)
+	SkWeights  []int // when set, the skeleton kind is sampled from this list
+	Suppress   bool  // combinator.SuppressError wrappers
+	MemoLeaves bool  // Memoize wrappers also around terminals and references ("any sub-parser")
+	NearMiss   bool  // prefer sentences of the grammar with one byte changed / inserted / deleted / appended
 }
 
 // fixRepetitions makes every repetition operand consume input (C02's precondition): a
@@ -132,7 +133,10 @@ func GenGrammar(t *rapid.T, o GenOpts) *Grammar {
 		if o.SkWeights != nil {
 			sk = o.SkWeights[rapid.IntRange(0, len(o.SkWeights)-1).Draw(t, "skeleton")]
 		} else {
-			sk = rapid.IntRange(0, 5).Draw(t, "skeleton") // 0 none 1 direct 2 hidden 3 ring 4 hidden ring 5 right/centre
+			sk = rapid.IntRange(0, 6).Draw(t, "skeleton") // 0 none 1 direct 2 hidden 3 ring 4 hidden ring 5 right/centre 6 precedence tower
+		}
+		if sk == 6 {
+			return genTower(t, o)
 		}
 		if (sk == 3 || sk == 4) && n >= 2 {
 			for i := range g.Layer {
@@ -176,10 +180,17 @@ func GenGrammar(t *rapid.T, o GenOpts) *Grammar {
 		e := &Expr{K: k}
 		switch k {
 		case KTerm:
-			return term()
+			e = term()
+			if o.MemoLeaves && rapid.IntRange(0, 5).Draw(t, "memoleaf") == 0 {
+				e.Memo = true
+			}
+			return e
 		case KEmpty:
 		case KRef:
 			e.NT = refs[rapid.IntRange(0, len(refs)-1).Draw(t, "ref")]
+			if o.MemoLeaves && rapid.IntRange(0, 5).Draw(t, "memoleaf") == 0 {
+				e.Memo = true
+			}
 			return e
 		case KSeqOf:
 			m := rapid.IntRange(1, 3).Draw(t, "seqlen")
@@ -493,4 +504,76 @@ func aliasSkeleton(t *rapid.T, g *Grammar, o GenOpts) {
 		g.Rules[host] = ex(KAny, seq, g.Rules[host])
 	}
 	g.number()
+}
+
+// prefixAlternatives gives a rule several alternatives that share a prefix and fail at
+// different depths (Choice/Any(SeqOf(a,b,c), SeqOf(a,d), ...)): the shape in which "keep the
+// furthest error" bookkeeping matters, in every order of the alternatives.
+func prefixAlternatives(t *rapid.T, g *Grammar, o GenOpts) {
+	n := rapid.IntRange(2, 4).Draw(t, "wordlen")
+	w := make([]byte, n)
+	for i := range w {
+		w[i] = o.Alphabet[rapid.IntRange(0, len(o.Alphabet)-1).Draw(t, "wch")]
+	}
+	k := rapid.IntRange(2, 4).Draw(t, "nalts")
+	var alts []*Expr
+	for i := 0; i < k; i++ {
+		cut := rapid.IntRange(1, n).Draw(t, "cut")
+		seq := &Expr{K: KSeqOf}
+		for _, ch := range w[:cut] {
+			seq.Kids = append(seq.Kids, tm(ch))
+		}
+		// a differing tail of 0-2 terminals
+		for j := rapid.IntRange(0, 2).Draw(t, "tail"); j > 0; j-- {
+			seq.Kids = append(seq.Kids, tm(o.Alphabet[rapid.IntRange(0, len(o.Alphabet)-1).Draw(t, "tch")]))
+		}
+		alts = append(alts, seq)
+	}
+	host := rapid.IntRange(0, len(g.Rules)-1).Draw(t, "phost")
+	kind := KChoice
+	if rapid.Bool().Draw(t, "pany") {
+		kind = KAny
+	}
+	// the old body goes last: for a Choice the earlier alternatives are in negated position and
+	// must not refer to rules of the same layer (terminal sequences never do)
+	alts = append(alts, g.Rules[host])
+	e := &Expr{K: kind, Kids: alts}
+	if rapid.Bool().Draw(t, "pwrap") {
+		// followed by something, so that a shorter alternative can match and the parse fail later
+		e = &Expr{K: KSeqOf, Kids: []*Expr{e, tm(o.Alphabet[rapid.IntRange(0, len(o.Alphabet)-1).Draw(t, "pnext")])}}
+	}
+	g.Rules[host] = e
+	g.number()
+}
+
+// genTower builds an operator-precedence tower of 3-6 memoized levels, every level directly
+// left-recursive and entered at the same position as the levels above it:
+// L_i -> L_i op_i L_{i+1} | L_{i+1},  L_last -> term | '(' L_0 ')'-like centre recursion.
+func genTower(t *rapid.T, o GenOpts) *Grammar {
+	n := rapid.IntRange(3, 6).Draw(t, "levels")
+	g := &Grammar{Rules: make([]*Expr, n), Layer: make([]int, n)}
+	term := func() *Expr {
+		return tm(o.Alphabet[rapid.IntRange(0, len(o.Alphabet)-1).Draw(t, "tch")])
+	}
+	for i := 0; i < n-1; i++ {
+		rec := ex(KSeqOf, rf(i), term(), rf(i+1))
+		if rapid.IntRange(0, 3).Draw(t, "hiddenlevel") == 0 {
+			rec = ex(KSeqOf, ex(KOpt, term()), rf(i), term(), rf(i+1))
+		}
+		alts := []*Expr{rec, rf(i + 1)}
+		if rapid.IntRange(0, 2).Draw(t, "twoops") == 0 {
+			alts = []*Expr{rec, ex(KSeqOf, rf(i), term(), rf(i+1)), rf(i + 1)}
+		}
+		if rapid.Bool().Draw(t, "swap") {
+			alts[0], alts[len(alts)-1] = alts[len(alts)-1], alts[0]
+		}
+		g.Rules[i] = &Expr{K: KAny, Kids: alts}
+	}
+	last := []*Expr{term()}
+	if rapid.Bool().Draw(t, "paren") {
+		last = append(last, ex(KSeqOf, term(), rf(0), term()))
+	}
+	g.Rules[n-1] = &Expr{K: KAny, Kids: last}
+	g.number()
+	return g
 }
